@@ -387,7 +387,11 @@ MC_INVARIANTS = {
 }
 
 
+MC_MODULE = {"C03": "MC_LazyCdcl"}      # the abstract (full-propagation) variant stays exercised by one check
+
+
 def mc_lazycdcl(prop, tier, seed, plan, n, liveness=False, timeout=None):
+    module = MC_MODULE.get(prop, "MC_LazyCdclW")
     timeout = timeout or (150 if tier == "quick" else 1500)
     """Model-checks LazyCdcl over the cases of `plan` for every admissible
     decision order, then compares the verdicts the model can reach with the real
@@ -401,13 +405,16 @@ def mc_lazycdcl(prop, tier, seed, plan, n, liveness=False, timeout=None):
     trace = os.path.join(wd, "mc.trace")
     vlib.run_cases(exe, cases, trace)
     cfg = os.path.join(vlib.SPEC, f"MC_LazyCdcl_{prop}.cfg")
+    invs = list(MC_INVARIANTS[prop])
+    if module == "MC_LazyCdclW":
+        invs += ["WatchesConsistent", "NoClauseFalsified"]
     with open(cfg, "w") as f:
-        f.write("SPECIFICATION Spec\nINVARIANTS\n  " + "\n  ".join(MC_INVARIANTS[prop] + ["Report"]) + "\n")
+        f.write("SPECIFICATION Spec\nINVARIANTS\n  " + "\n  ".join(invs + ["Report"]) + "\n")
         if liveness:
             f.write("PROPERTY Termination\n")
         f.write("CHECK_DEADLOCK FALSE\n")
     try:
-        out, st = vlib.tlc("MC_LazyCdcl.tla", os.path.basename(cfg), os.path.join(vlib.WORK, f"md_mc_{prop}"),
+        out, st = vlib.tlc(module + ".tla", os.path.basename(cfg), os.path.join(vlib.WORK, f"md_mc_{prop}"),
                            env_extra={"CASES": cases}, workers=8, timeout=timeout,
                            java_opts="-Xss1g -Xmx8g -XX:+UseParallelGC -XX:ParallelGCThreads=4")
     except vlib.ToolError as e:
@@ -468,7 +475,8 @@ def mc_lazycdcl(prop, tier, seed, plan, n, liveness=False, timeout=None):
                    "trace": [json.loads(x) for x in vlib.extract_run(trace, int(cid.split(".")[0]))]}, open(path, "w"))
         viol.append((f"real verdict {real[cid][0]} for case {cid} is not reachable in the canonical model", path))
     info = {"mc_cases": cnt, "mc_states": st["distinct"], "mc_transitions": st["states"],
-            "mc_invariants": MC_INVARIANTS[prop] + (["Termination (liveness, weak fairness)"] if liveness else []),
+            "mc_model": module[3:] + ".tla",
+            "mc_invariants": invs + (["Termination (liveness, weak fairness)"] if liveness else []),
             "mc_real_outcome_in_model_set": member, "mc_cases_with_several_model_outcomes": multi,
             "mc_verdict_mismatches": len(verdict_mismatch)}
     log(f"[{prop}] LazyCdcl MC: {cnt} cases, {st['distinct']} states, real outcome in model set {member}/{len(real)}, "
